@@ -355,6 +355,12 @@ def r_accessor_sibling(ck: Checker, rule: str = "R-ACCESSOR-SIBLING") -> None:
                     try:
                         ys = _yield_reached(loop.body, a)
                     except NeedAtom as e:
+                        import re as _re
+                        other = [a_ for a_ in _re.findall(rf"\b{fv}\.(\w+)", e.key) if a_ not in ("name", "compare", "init")]
+                        if other:
+                            ck.violation(rule, f, loop, "get_property_fields decides from the field's name kind, compare and init only (the documented flag table, the same as the generated get_properties)",
+                                         positive=True, construct=f"get_property_fields reads field.{other[0]} ({e.key[:60]}): a field declared with {other[0]}=... is skipped / kept against the flag table, and the static variant disagrees with the generated one")
+                            return
                         raise Unsupported(f"get_property_fields depends on {e.key}", loop)
                     got = len(ys) >= 1
                     if any(not (isinstance(y, ast.Yield) and y.value is not None and norm(y.value) == fv) for y in ys) or len(ys) > 1:
@@ -527,6 +533,23 @@ def r_types_cache(ck: Checker, rule: str = "R-TYPES-CACHE") -> None:
                 ck.violation(rule, f, early, "the per-class tables get their entry only after process_node_fields(cls, ASTNode) has succeeded", positive=True,
                              construct=f"_populate_type_dicts: {norm(early)[:60]} creates the entry before the fields are classified: when the classification raises "
                              "(unresolved forward reference, invalid annotation) an empty entry stays behind and later lookups are answered from it")
+                return
+    # entries for *other* classes (bases back-filled from the subclass's tables): positive pattern — a loop over the MRO / the bases in
+    # _populate_type_dicts that stores into the tables (directly or through a helper that does)
+    raw_ = f.raw or f.node
+    storing_helpers = {st.name for st in ck.repo.mod("pyoak.types").tree.body if isinstance(st, ast.FunctionDef)
+                       and any(isinstance(x, ast.Subscript) and isinstance(x.ctx, ast.Store) and norm(x.value) in TABLES for x in ast.walk(st))}
+    for lp_ in [x for x in ast.walk(raw_) if isinstance(x, ast.For)]:
+        it_txt = norm(lp_.iter)
+        if not any(k in it_txt for k in ("__mro__", "__bases__", "mro()", "getmro(")):
+            continue
+        for n_ in ast.walk(lp_):
+            direct = isinstance(n_, ast.Subscript) and isinstance(n_.ctx, ast.Store) and norm(n_.value) in TABLES
+            via = isinstance(n_, ast.Call) and isinstance(n_.func, ast.Name) and n_.func.id in storing_helpers
+            if direct or via:
+                ck.violation(rule, f, n_, "_populate_type_dicts fills the tables of the class it was asked for, and of no other class", positive=True,
+                             construct=f"_populate_type_dicts: {norm(n_)[:60]} inside the loop over {it_txt[:30]} enters tables for other classes of the hierarchy — a base class gets what "
+                             "the subclass's classification says about it (an overridden field lands in neither table, an invalid base annotation is never rejected)")
                 return
     # the same defect spelled incrementally: the tables are filled field by field while a classifier stream is still being consumed
     for lp_ in [x for x in ast.walk(f.raw or f.node) if isinstance(x, ast.For)]:
